@@ -25,25 +25,84 @@ pub enum C08Case {
     Doc(Vec<Vec<(usize, usize)>>),
     /// edit history on a paragraph: initial fields + ops
     Edit { init: Vec<(usize, usize)>, ops: Vec<LOp> },
+    /// field-name alphabet: printable ASCII character `cp` at position `pos` of a name (0 inside "X?y", 1 last "k?",
+    /// 2 first "?k" - not for '-' and '#'), the field carrying VALUES8[value], followed by a field "B"; printed, re-read by
+    /// both readers, and get / set / insert / remove by that name
+    NameChar { cp: u32, pos: u8, value: usize },
 }
+pub const NAMECHAR_VALUES: [usize; 4] = [1, 0, 8, 10];
 
 pub struct C08(pub std::sync::atomic::AtomicU64);
 
-fn build_doc(spec: &[Vec<(usize, usize)>]) -> Option<lossy::Deb822> {
+fn build_doc(spec: &[Vec<(String, String)>]) -> Option<lossy::Deb822> {
     // lossy::Deb822 has no public constructor: parse a skeleton with the right number of paragraphs, then replace the fields
     let skeleton = vec!["K: v\n"; spec.len()].join("\n");
     let mut d = lossy::Deb822::from_str(&skeleton).ok()?;
     for (p, fields) in d.iter_mut().zip(spec.iter()) {
-        p.fields = fields.iter().map(|(n, v)| lossy::Field { name: NAMES8[*n].to_string(), value: VALUES8[*v].to_string() }).collect();
+        p.fields = fields.iter().map(|(n, v)| lossy::Field { name: n.clone(), value: v.clone() }).collect();
     }
     Some(d)
+}
+
+fn named(spec: &[Vec<(usize, usize)>]) -> Vec<Vec<(String, String)>> {
+    spec.iter().map(|p| p.iter().map(|(n, v)| (NAMES8[*n].to_string(), VALUES8[*v].to_string())).collect()).collect()
+}
+
+fn name_with(cp: u32, pos: u8) -> Option<String> {
+    let c = char::from_u32(cp)?;
+    if !(0x21..=0x7e).contains(&cp) || c == ':' {
+        return None;
+    }
+    match pos {
+        0 => Some(format!("X{}y", c)),
+        1 => Some(format!("k{}", c)),
+        _ if c == '-' || c == '#' => None,
+        _ => Some(format!("{}k", c)),
+    }
+}
+
+fn check_name_char(cp: u32, pos: u8, value: usize) -> Vec<Viol> {
+    let Some(name) = name_with(cp, pos) else { return vec![] };
+    let val = VALUES8[value % VALUES8.len()];
+    let fields = vec![(name.clone(), val.to_string()), ("B".to_string(), "v".to_string())];
+    let mut out = check_doc(&[fields.clone()]);
+    out.extend(check_doc(&[vec![("B".to_string(), "v".to_string())], vec![(name.clone(), val.to_string())]]));
+    let ctx = |w: &str| format!("paragraph {:?}: {}", fields, w);
+    let fresh = || -> lossy::Paragraph { fields.iter().cloned().collect() };
+    let items = |p: &lossy::Paragraph| -> M { p.iter().map(|(k, v)| (k.to_string(), v.to_string())).collect() };
+    let p = fresh();
+    if p.get(&name) != Some(val) || p.get("B") != Some("v") {
+        out.push(viol("get-first", ctx(&format!("get({:?}) = {:?}, get(B) = {:?}", name, p.get(&name), p.get("B")))));
+    }
+    let mut q = fresh();
+    q.set(&name, "x");
+    if items(&q) != vec![(name.clone(), "x".to_string()), ("B".to_string(), "v".to_string())] {
+        out.push(viol("list-model", ctx(&format!("after set({:?}, x): {:?}", name, items(&q)))));
+    }
+    let mut q = fresh();
+    q.insert(&name, "x");
+    if items(&q) != vec![(name.clone(), val.to_string()), ("B".to_string(), "v".to_string()), (name.clone(), "x".to_string())] {
+        out.push(viol("list-model", ctx(&format!("after insert({:?}, x): {:?}", name, items(&q)))));
+    }
+    let mut q = fresh();
+    q.remove(&name);
+    if items(&q) != vec![("B".to_string(), "v".to_string())] {
+        out.push(viol("list-model", ctx(&format!("after remove({:?}): {:?}", name, items(&q)))));
+    }
+    // the paragraph re-read from its text answers alike
+    if let Ok(parsed) = lossy::Paragraph::from_str(&p.to_string()) {
+        if parsed.get(&name) != p.get(&name) {
+            out.push(viol("get-first", ctx(&format!("after re-reading, get({:?}) = {:?}, before {:?}", name, parsed.get(&name), p.get(&name)))));
+        }
+    }
+    out
 }
 
 fn nonblank(v: &str) -> Vec<String> {
     v.split('\n').filter(|l| !l.is_empty()).map(|l| l.to_string()).collect()
 }
 
-fn check_doc(spec: &[Vec<(usize, usize)>]) -> Vec<Viol> {
+fn check_doc(spec: &[Vec<(String, String)>]) -> Vec<Viol> {
     let mut out = vec![];
     let Some(d) = build_doc(spec) else {
         return vec![viol("harness", "could not build the lossy document")];
@@ -181,7 +240,7 @@ impl Prop for C08 {
         "model_checking"
     }
     fn rule(&self, _t: Tier) -> String {
-        "(a) print/parse: the full product of lossy documents over 3 names x 18 canonical values (empty, trailing spaces, Unicode, ':' '#' inside and leading, multi-line, empty first line, '.' line) for one paragraph of 1-3 fields, 2-3 paragraphs of 1 field and (thorough) 2 paragraphs x 2 fields; each is printed, re-read by both readers and checked for one blank line between paragraphs; (b) edits: breadth-first search over get/set/insert/remove histories (3 names x 2 values) from 6 initial paragraphs, the state being the field vector itself (exact cache), against a Vec model; states = distinct field vectors, transitions = operations applied; non-trivial = every document / every distinct edit state".into()
+        "(a) print/parse: the full product of lossy documents over 3 names x 18 canonical values (empty, trailing spaces, Unicode, ':' '#' inside and leading, multi-line, empty first line, '.' line) for one paragraph of 1-3 fields, 2-3 paragraphs of 1 field and (thorough) 2 paragraphs x 2 fields; each is printed, re-read by both readers and checked for one blank line between paragraphs; every printable ASCII character except ':' inside, at the end and (except '-' '#') at the start of a field name x 4 values, printed, re-read and used with get/set/insert/remove; (b) edits: breadth-first search over get/set/insert/remove histories (3 names x 2 values) from 6 initial paragraphs, the state being the field vector itself (exact cache), against a Vec model; states = distinct field vectors, transitions = operations applied; non-trivial = every document / every distinct edit state".into()
     }
     fn bounds(&self, t: Tier) -> Value {
         json!({"names": NAMES8, "values": VALUES8, "edit_depth": t.pick(4, 6), "edit_initial_paragraphs": EDIT_INITS.len(), "edit_ops": edit_ops().len()})
@@ -200,6 +259,15 @@ impl Prop for C08 {
         match shard {
             0 => {
                 f(&C08Case::Doc(vec![])); // the document without paragraphs
+                for cp in 0x21..=0x7eu32 {
+                    for pos in 0..3u8 {
+                        if name_with(cp, pos).is_some() {
+                            for value in NAMECHAR_VALUES {
+                                f(&C08Case::NameChar { cp, pos, value });
+                            }
+                        }
+                    }
+                }
                 for fields in 1..=3 {
                     product(&vec![n; fields], &mut |v| {
                         f(&C08Case::Doc(vec![v.iter().map(|x| pair(*x)).collect()]));
@@ -252,7 +320,8 @@ impl Prop for C08 {
     }
     fn check(&self, c: &C08Case, st: &mut Stats) -> Vec<Viol> {
         let r = guard(100_000, || match c {
-            C08Case::Doc(spec) => (check_doc(spec), None),
+            C08Case::Doc(spec) => (check_doc(&named(spec)), None),
+            C08Case::NameChar { cp, pos, value } => (check_name_char(*cp, *pos, *value), None),
             C08Case::Edit { init, ops } => {
                 let (v, k) = run_edit(init, ops);
                 (v, Some(k))
@@ -265,6 +334,12 @@ impl Prop for C08 {
                         st.nontrivial += 1;
                         if vs.is_empty() {
                             st.outcome("doc-ok")
+                        }
+                    }
+                    C08Case::NameChar { .. } => {
+                        st.nontrivial += 1;
+                        if vs.is_empty() {
+                            st.outcome("name-char-ok")
                         }
                     }
                     C08Case::Edit { .. } => {
@@ -309,6 +384,11 @@ impl Prop for C08 {
                     }
                 }
             }
+            C08Case::NameChar { cp, pos, value } => {
+                if *value != 1 {
+                    out.push(C08Case::NameChar { cp: *cp, pos: *pos, value: 1 });
+                }
+            }
             C08Case::Edit { init, ops } => {
                 for i in 0..ops.len() {
                     let mut o = ops.clone();
@@ -334,6 +414,6 @@ impl Prop for C08 {
         json!({"distinct_edit_states": self.0.load(std::sync::atomic::Ordering::Relaxed)})
     }
     fn required_outcomes(&self) -> Vec<&'static str> {
-        vec!["doc-ok", "edit-ok"]
+        vec!["doc-ok", "edit-ok", "name-char-ok"]
     }
 }
